@@ -57,13 +57,20 @@ type mustStore struct {
 	st     *types.Struct
 	depth  int
 	wholes bool // saw a whole-struct store
+	// valOK, when set, restricts which stored values count; a store of any other
+	// value removes the field from the set.
+	valOK func(v ssa.Value) bool
 }
 
 func (m *mustStore) transfer(in ssa.Instruction, cur fieldSet) {
 	switch x := in.(type) {
 	case *ssa.Store:
 		if base, f := fieldVar(x.Addr); f != nil && m.isObj(cv(base)) {
-			cur[f.Origin()] = true
+			if m.valOK != nil && !m.valOK(x.Val) {
+				delete(cur, f.Origin())
+			} else {
+				cur[f.Origin()] = true
+			}
 		} else if m.isObj(cv(x.Addr)) {
 			// *obj = T{...}
 			for k := range allFields(m.st) {
@@ -89,7 +96,7 @@ func (m *mustStore) transfer(in ssa.Instruction, cur fieldSet) {
 				continue
 			}
 			prm := ci.static.Params[i]
-			sub := &mustStore{P: m.P, fn: ci.static, st: m.st, depth: m.depth + 1,
+			sub := &mustStore{P: m.P, fn: ci.static, st: m.st, depth: m.depth + 1, valOK: m.valOK,
 				isObj: func(v ssa.Value) bool { return v == ssa.Value(prm) }}
 			for k := range sub.run(ci.static.Blocks[0], 0) {
 				cur[k] = true
